@@ -429,7 +429,7 @@ func runC12(c *Ctx) {
 	}
 	// mid-relist and mid-reconnect shutdowns, slow lists, hanging watch connects
 	midModes := []string{"slow-list", "watch-hangs", "watch-errors", "slow-list+watch-hangs", "stream-dropped", "stream-dropped-twice",
-		"list-outlasts-period", "cancel-while-applying-a-list", "close-while-applying-a-list"}
+		"list-outlasts-period", "cancel-while-applying-a-list", "close-while-applying-a-list", "client-slow-to-return"}
 	for i := 0; i < 6*len(midModes); i++ {
 		var problems []string
 		var stuck string
@@ -443,9 +443,16 @@ func runC12(c *Ctx) {
 			if mode == "slow-list" || mode == "slow-list+watch-hangs" {
 				srv.ListLatency = func(int) time.Duration { return 1500 * time.Millisecond }
 			}
+			if mode == "client-slow-to-return" {
+				// a list and a watch connect are in flight at the shutdown; both end
+				// with their context, but take 50 ms to come back: the root is not
+				// done before the goroutines that made these calls have them back
+				srv.ListLatency = func(int) time.Duration { return 1500 * time.Millisecond }
+				srv.CancelLag = 50 * time.Millisecond
+			}
 			srv.WatchBehave = func(n int, rv string) string {
 				switch mode {
-				case "watch-hangs", "slow-list+watch-hangs":
+				case "watch-hangs", "slow-list+watch-hangs", "client-slow-to-return":
 					return "hang"
 				case "watch-errors":
 					return fakeapi.ConnectError(n)
@@ -560,6 +567,11 @@ func runC12(c *Ctx) {
 					time.Sleep(400 * time.Millisecond) // inside the retry delay
 				}
 			}
+			inflightAtDone := -1
+			go func() {
+				<-ct.c.Done()
+				inflightAtDone = srv.InFlight()
+			}()
 			done := make(chan struct{})
 			if mode == "cancel-while-applying-a-list" {
 				go func() { ct.cancel(); <-ct.c.Done(); close(done) }()
@@ -580,6 +592,11 @@ func runC12(c *Ctx) {
 					sched.Settle()
 				}
 			}
+			if mode == "client-slow-to-return" {
+				// Close() returns once the client calls are back: 50 ms
+				time.Sleep(100 * time.Millisecond)
+				sched.Settle()
+			}
 			if !isClosed(done) {
 				stuck = sched.LibraryStacks()
 				problems = append(problems, fmt.Sprintf("Close() has not returned (%s, closed %v after start)", mode, at))
@@ -587,6 +604,9 @@ func runC12(c *Ctx) {
 			if !isClosed(ct.c.Done()) {
 				problems = append(problems, fmt.Sprintf("Done() is not closed (%s, closed %v after start)", mode, at))
 			} else {
+				if inflightAtDone > 0 {
+					problems = append(problems, fmt.Sprintf("when Done() closed, %d List/Watch calls made by the library's goroutines had not returned yet: the root was done before the goroutines it started (%s, closed %v after start)", inflightAtDone, mode, at))
+				}
 				// every caller's pause between two calls (<= 5ms) is over
 				time.Sleep(12 * time.Millisecond)
 				sched.Settle()
